@@ -236,8 +236,8 @@ func runFetchAll(c *driver.Ctx, k *kase) *fail {
 func runVerifyReader(c *driver.Ctx, k *kase, sp space) *fail {
 	const t = "content.VerifyReader"
 	L := 4
-	if sp.thorough {
-		L = 5
+	if sp.thorough && k.ck.zero < 0 && !k.ck.join {
+		L = 5 // longer call sequences for the plain chunkings only
 	}
 	n := 1
 	for i := 0; i < L; i++ {
